@@ -411,8 +411,8 @@ fn termination_probe(sink: &mut Sink, work: &std::path::Path, only: Option<&str>
             let d = json!({"kind": "termination", "text": t, "normalize": normalize});
             sink.tag("termination_probe:separator_in_normalized_form");
             let id = sink.case_rust_only(d, true);
-            match analyse_with_timeout(with.clone(), t, 4000) {
-                None => sink.fail(id, &format!("{:?} (numeral-class word whose normalised form contains a separator, enableNormalize={}): the analysis does not terminate (no answer after 4 s; the numeral-joining loop restarts the same run for ever)", t, normalize), ""),
+            match analyse_with_timeout(with.clone(), t, 2500) {
+                None => sink.fail(id, &format!("{:?} (numeral-class word whose normalised form contains a separator, enableNormalize={}): the analysis does not terminate (no answer after 2.5 s; the numeral-joining loop restarts the same run for ever)", t, normalize), ""),
                 Some(Err(e)) => sink.fail(id, &format!("{:?}: analysis fails with the numeral plugin: {}", t, e), ""),
                 Some(Ok(v)) => {
                     if verbose {
